@@ -8,6 +8,7 @@ key-only call overlaps the value bytes of ANY item record ever flushed).
 -/
 import Gkv.Proofs.Lazy
 import Gkv.Proofs.FlushTiles
+import Gkv.Proofs.Cache
 open Std
 
 namespace Gkv.Props.C19
@@ -58,5 +59,40 @@ theorem records_never_overlap (cs : List Coll) (s : FileSt) (hf : s.failed = fal
 theorem withvalue_reads_value (loc : Ploc) (kl vl : Nat) (hv : 0 < vl) :
     ∃ r ∈ itemReads loc kl vl true, r.touches (valueRange loc kl vl) :=
   withvalue_touches_value loc kl vl hv
+
+/-! ### the same for the traversal itself (Model L, `Model/Cache.lean`)
+
+`keyonly_traversal_reads` above speaks about an abstract list of visited nodes.  Model L is the
+lazily loaded tree with `nodeLoc.read`, `itemLoc.read`, `node.Evict`, `GetItem`, `walk`
+(`MinItem`/`MaxItem`) and `evictSomeItems` as the Go code performs them, reads included; the
+correspondence compares its read lists and cache transitions with the implementation's
+(`cget`/`cmin`/`cmax`/`cevict` lines). -/
+
+open Gkv.Cache in
+/-- Any history of `GetItem`/`MinItem`/`MaxItem` with `withValue = false` and evictions, started in
+    ANY cache state of a collection whose tree is coherent with the file, reads no byte of a range
+    that overlaps neither a node record nor the header+key part of an item record of that tree —
+    so no byte of any item's value, since records do not overlap (`records_never_overlap`). -/
+theorem keyonly_history_reads_no_value (f : Bytes) (bound : Nat) (cmp : Bytes → Bytes → Ordering)
+    (fuel : Nat) (T : Tree) (hc : T.Coherent f bound) (hf : T.height < fuel)
+    (ops : List COp) (hk : ∀ op ∈ ops, op.wv = false) (c : CTree) (hr : Rep c T)
+    (rng : Nat × Nat) (hd : KeyDisjoint rng T) :
+    ∃ outs c' rds, runC f cmp fuel ops c = some (outs, c', rds) ∧
+      ∀ rd ∈ rds, ¬ rd.touches rng := by
+  obtain ⟨outs, c', rds, e, _, _, _, h⟩ := runC_spec f bound cmp fuel T hc hf ops c hr
+  exact ⟨outs, c', rds, e, fun rd hrd => allowed_false_no_touch (h hk rd hrd) rng hd⟩
+
+open Gkv.Cache in
+/-- non-vacuity / discrimination: on a one-item file the cold key-only lookup reads the node record,
+    the header and the key — and the lookup with the value also reads the value bytes -/
+example :
+    let it : Item := ⟨[7], [9, 9], 3⟩
+    let f : Bytes := encItem it ++ encNode ⟨some ⟨0, 19⟩, none, none, 1, 3⟩
+    (getC f cmpBytes false 5 (.stub ⟨19, 52⟩) [7]).map (fun x => (x.1, x.2.2)) =
+        some (some ⟨[7], 3, none⟩, [Rd.read 19 52, Rd.read 0 16, Rd.read 16 1]) ∧
+    (getC f cmpBytes true 5 (.stub ⟨19, 52⟩) [7]).map (fun x => (x.1, x.2.2)) =
+        some (some ⟨[7], 3, some [9, 9]⟩,
+          [Rd.read 19 52, Rd.read 0 16, Rd.read 16 1, Rd.read 0 16, Rd.read 16 1, Rd.read 17 2]) := by
+  decide
 
 end Gkv.Props.C19
